@@ -124,7 +124,7 @@ def gen_files_case(rng):
         search = ['sp']
     elif which == 7:    # qualifier files on the search path
         files = {'main.mof': 'class F_Q { [Key] uint8 p; F_Nope REF r; };\n',
-                 'sp/qualifiers.mof': rng.choice([L.QUALS, L.QUALS + bad, '', '@']),
+                 'sp/qualifiers.mof': rng.choice([L.QUALS, L.QUALS + bad, '', '@', 'class F_QF { [Key] uint8 p; };\n' + L.QUALS]),
                  'sp/qualifiers_optional.mof': rng.choice(['', bad])}
         search = ['sp']
     elif which == 8:    # include of a directory / the include names itself via the search path lookup
